@@ -345,6 +345,11 @@ func (st *SymbolTable) DisableBuiltin(names ...string) {
 
 	for _, n := range names {
 		root.disabledBuiltins[n] = struct{}{}
+		// a builtin that was resolved before it is disabled stays in the
+		// store of the root table, forget it.
+		if s, ok := root.store[n]; ok && s.Scope == ScopeBuiltin {
+			delete(root.store, n)
+		}
 	}
 }
 
